@@ -20,22 +20,26 @@ AllOps ==
   \cup {O(c, op, nm, 0, 0, "", 0) : c \in Ctxs, op \in {"get", "del"}, nm \in Names}
   \cup {O(c, op, "", 0, 0, "", 0) : c \in Ctxs, op \in {"iter", "release", "pop", "top", "release_stack", "cleanup",
                                                             "release_dunder", "release_stack_dunder", "pop_all"}}
+  \cup {O(c, "cv_set", "", b, 0, "", 0) : c \in Ctxs, b \in Boxes}
+  \cup {O(c, "mw_enter", nm, b, v, k, 0) : c \in Ctxs, nm \in Names, b \in Boxes, v \in {0, 3}, k \in MwForms}
+  \cup {O(c, "mw_enter", "", b, v, k, 0) : c \in Ctxs, b \in MwPush, v \in {0, 3}, k \in MwForms}
+  \cup {O(c, "mw_close", "", 0, v, "", 0) : c \in Ctxs, v \in 0..2}
   \cup {O(c, "mkmgr", "", 0, 0, k, 0) : c \in Ctxs, k \in MgrForms}
   \cup {O(c, "mgr_append", "", 0, 0, k, 0) : c \in Ctxs, k \in {"local", "stack"}}
   \cup {O(c, "mw", nm, b, v, k, 0) : c \in Ctxs, nm \in Names, b \in Boxes, v \in MwVariants, k \in MwForms}
   \cup {O(c, "mw", "", b, v, k, 0) : c \in Ctxs, b \in MwPush, v \in MwVariants, k \in MwForms}
   \cup {O(c, "push", "", b, 0, "", 0) : c \in Ctxs, b \in Boxes}
-  \cup {O(c, op, "", 0, 0, k, 0) : c \in Ctxs, op \in {"mkproxy", "proxy_read"}, k \in PKinds}
-  \cup {O(c, "proxy_mutate", "", 0, v, k, 0) : c \in Ctxs, v \in Vals, k \in PKinds}
-  \cup {O(c, op, "", 0, 0, k, 0) : c \in Ctxs, op \in {"proxy_pop", "proxy_clear"}, k \in PKinds}
-  \cup {O(c, op, "", 0, v, k, 0) : c \in Ctxs, op \in {"proxy_iadd", "proxy_isub", "proxy_ior"}, v \in IopArgs, k \in PKinds}
-  \cup {O(c, "proxy_imul", "", 0, 2, k, 0) : c \in Ctxs, k \in PKinds}
+  \cup {O(c, op, "", 0, 0, k, 0) : c \in Ctxs, op \in {"mkproxy", "proxy_read"}, k \in MCKinds}
+  \cup {O(c, "proxy_mutate", "", 0, v, k, 0) : c \in Ctxs, v \in Vals, k \in MCKinds}
+  \cup {O(c, op, "", 0, 0, k, 0) : c \in Ctxs, op \in {"proxy_pop", "proxy_clear"}, k \in MCKinds}
+  \cup {O(c, op, "", 0, v, k, 0) : c \in Ctxs, op \in {"proxy_iadd", "proxy_isub", "proxy_ior"}, v \in IopArgs, k \in MCKinds}
+  \cup {O(c, "proxy_imul", "", 0, 2, k, 0) : c \in Ctxs, k \in MCKinds}
   \cup {O(c, "spawn", "", 0, 0, "", ch) : c \in Ctxs, ch \in Ctxs}
 
 Allowed(S, o) == /\ o.op \in OpKinds
                  /\ Enabled(S, o)
                  /\ (o.op = "push" => Len(S.stack[o.ctx]) < MaxStack)
-                 /\ (o.op = "mw" /\ o.n = "" /\ o.b # NoBox => Len(S.stack[o.ctx]) < MaxStack)
+                 /\ (o.op \in {"mw", "mw_enter"} /\ o.n = "" /\ o.b # NoBox => Len(S.stack[o.ctx]) < MaxStack)
                  \* lists grown through a proxy stay small
                  /\ (o.op \in {"proxy_iadd", "proxy_imul"} =>
                         LET b == Bound(S, o.ctx, o.k) IN
@@ -62,7 +66,7 @@ ViewState   == st             \* export: the transition system of the contract i
 \* ---- laws (action properties, checked on every transition) ---------------------------------
 TypeOK == /\ st.alive \subseteq Ctxs /\ 1 \in st.alive
           /\ \A c \in Ctxs : c \notin st.alive => st.attrs[c] = NoAttrs /\ st.stack[c] = <<>>
-          /\ st.made \subseteq PKinds
+          /\ st.made \subseteq AllKinds
 LawNoLeak     == [][NoLeak(st, act'.op, st')]_vars
 LawSnapshot   == [][ChildSeesSnapshot(st, act'.op, st')]_vars
 LawRelease    == [][ReleaseIsLocal(st, act'.op, st')]_vars
@@ -75,4 +79,5 @@ Export == PrintT(ToJson([pre |-> st, act |-> act', post |-> st']))
 NoLimit == 0 - 1
 NoneMade == {}
 AllMade == PKinds
+EveryKind == AllKinds
 =============================================================================
